@@ -1,4 +1,5 @@
 import CoclsModel.GeneratorProofs
+import CoclsModel.GeneratorHandover
 /-!
 # C13 — generator: the consumer sees exactly the yielded sequence, in every access style
 
@@ -336,6 +337,57 @@ theorem c13_busy_iff {mode : Bool} {sc : List Act} {s : State} (h : Reachable mo
   · intro hs
     have := hi.stuck_fin hs
     exact ⟨this.1, this.2.2⟩
+
+/-! ### the hand-over at a `co_yield` between two threads (micro-steps, `CoclsModel/GeneratorHandover.lean`)
+
+The theorems above treat one operation as one step. That is sound for the threads involved because the thread that runs the body
+up to a `co_yield` (it completed the awaited operation) writes nothing to the hand-over record after it has notified the
+consumer — so the consumer's next access (from its own thread, or re-entrantly from inside the notification) never overlaps
+with it. -/
+
+/-- **Notify last.** In every interleaving of the yielding thread (`_arg = nullptr; caller = exchange(_caller, nullptr);
+caller->resume()`) with the consumer's next access (`set_arg; assert(_caller == nullptr); _caller = &_internal; h.resume()`,
+enabled as soon as the consumer is notified): the assert holds, the body reads the new access's argument, and the new caller
+slot is still set when the body runs on. -/
+theorem c13_yield_notifies_last {s : Handover.HS} (h : Handover.Reach Handover.asIs s) (hdone : s.pcA = 4) :
+    s.assertOk = true ∧ s.got = some .new ∧ s.callerAtResume = some true :=
+  Handover.chain_ok s (Handover.reach_chain h) hdone
+
+/-- the order matters — witness for "notify first, clear afterwards": an interleaving in which the consumer's next access trips the
+"Generator is busy" assert, and one in which it passes the assert but its argument is wiped before the body reads it (a null
+reference) -/
+theorem c13_late_clear_breaks :
+    (∃ s, Handover.Reach Handover.late s ∧ s.pcA = 4 ∧ s.assertOk = false) ∧
+    (∃ s, Handover.Reach Handover.late s ∧ s.pcA = 4 ∧ s.assertOk = true ∧ s.got = some .null) := by
+  open Handover in
+  constructor
+  · -- B: notify; A: set_arg, assert (fires: _caller not yet cleared), ...
+    let s1 := stepB late Handover.init
+    let s2 := stepA s1
+    let s3 := stepA s2
+    let s4 := stepA s3
+    let s5 := stepA s4
+    have r1 : Reach late s1 := Reach.step Reach.init (by decide)
+    have r2 : Reach late s2 := Reach.step r1 (by decide)
+    have r3 : Reach late s3 := Reach.step r2 (by decide)
+    have r4 : Reach late s4 := Reach.step r3 (by decide)
+    have r5 : Reach late s5 := Reach.step r4 (by decide)
+    exact ⟨s5, r5, by decide, by decide⟩
+  · -- B clears _caller before A's assert, but _arg only after A's set_arg
+    let s1 := stepB late Handover.init      -- notify
+    let s2 := stepA s1             -- set_arg
+    let s3 := stepB late s2        -- _caller = nullptr
+    let s4 := stepA s3             -- assert passes
+    let s5 := stepA s4             -- _caller = &_internal
+    let s6 := stepB late s5        -- _arg = nullptr  (wipes the new argument)
+    have r1 : Reach late s1 := Reach.step Reach.init (by decide)
+    have r2 : Reach late s2 := Reach.step r1 (by decide)
+    have r3 : Reach late s3 := Reach.step r2 (by decide)
+    have r4 : Reach late s4 := Reach.step r3 (by decide)
+    have r5 : Reach late s5 := Reach.step r4 (by decide)
+    have r6 : Reach late s6 := Reach.step r5 (by decide)
+    have r7 : Reach late (stepA s6) := Reach.step r6 (by decide)
+    exact ⟨stepA s6, r7, by decide, by decide, by decide⟩
 
 /-! ### the hypotheses are satisfiable: concrete non-trivial runs (kernel-evaluated) -/
 
